@@ -20,7 +20,7 @@ ASSUMPTIONS = [
     "existence queries reject corruption on local stores only (the base store's query is existence-only, as the statement says)",
 ]
 MONITORS = "verdicts of check / oids_exist / checkout / verifying add compared with the harness's own ground truth of which objects were tampered; file presence and mode bits re-read from disk"
-REQUIRED_COUNTERS = ["probe/check", "probe/oids_exist", "probe/checkout", "probe/verify-add", "state/warm", "state/cold", "state/none",
+REQUIRED_COUNTERS = ["used_intact_before_tamper", "probe/check", "probe/oids_exist", "probe/checkout", "probe/verify-add", "state/warm", "state/cold", "state/none",
                      "tampered_objects", "intact_objects_checked", "store/local", "store/base", "tamper/truncate", "tamper/append",
                      "tamper/same-length", "tamper/diff-length", "tamper/rename", "unprotected_intact_checked"]
 
@@ -130,6 +130,19 @@ def run_shard(ctx):
             objs, _t, _s = list_store(root)
             oids = sorted(objs)
             file_oids = [o for o in oids if not o.endswith(DIR_SUFFIX)]
+            # in half of the cases the objects are used while still intact (anything memoised then must not be trusted later)
+            if rng.random() < 0.5:
+                res.count("used_intact_before_tamper")
+                pre = os.path.join(d, "pre-out")
+                if rng.random() < 0.7:
+                    checkout(pre, fs, loaded_before, odb, force=True, state=state)
+                    if rng.random() < 0.5:
+                        checkout(pre, fs, loaded_before, env.odb_of_class(cls, root, state=state), force=True, state=state)
+                else:
+                    for o in oids:
+                        odb.check(o)
+                    if cls == "local":
+                        odb.oids_exist(list(oids))
             # victims
             victims = {rng.choice(file_oids)}
             if rng.random() < 0.25:
